@@ -133,7 +133,7 @@ CLAIMED.update({
                 "(CG tag on encode, resolve on decode, lazy view) by must-pass-through, confirmed writers of the raw record buffer with "
                 "validation on both read paths, dec∘enc = id exhaustively for the kind/type/subtype tables, reg2bin geometry constants, and the reused-destination rule: every success path of "
                 "decode() overwrites or clears each RecordBuf column; the length-prefix read loop advances its cursor and returns Ok only on nothing-or-everything. Whole-record equality and value boundaries are not decided.",
-        "note": "interval reasoning is dominance-based; three casts are tabled with reasons; R10 writer scratch buffer cleared before the fill",
+        "note": "interval reasoning is dominance-based; three casts are tabled with reasons; R10 writer scratch buffer cleared before the fill; genuine defect F44 (two CG fields when a lazy record with a long CIGAR is re-written) repaired (fix: b489e11; R3)",
         "technique": "static analysis: interval domain over MIR for casts, must-pass-through, who-may-write, HIR match-table agreement, evaluated constants",
         "design_ref": "§5 C05",
     },
